@@ -26,7 +26,7 @@ where
         gsd_parser::Rule::hex_number => {
             u32::from_str_radix(pair.as_str().trim_start_matches("0x"), 16)
         }
-        _ => panic!("Called parse_number() on a non-number pair: {:?}", pair),
+        _ => return Err(parse_error("expected a number", pair.as_span())),
     }
     .map_err(|_| parse_error("invalid digit found while parsing integer", pair.as_span()))
     .and_then(|i| i.try_into().map_err(|e| parse_error(e, pair.as_span())))
@@ -38,7 +38,7 @@ fn parse_signed_number(pair: pest::iterators::Pair<'_, gsd_parser::Rule>) -> Par
         gsd_parser::Rule::hex_number => {
             i64::from_str_radix(pair.as_str().trim_start_matches("0x"), 16)
         }
-        _ => panic!("Called parse_number() on a non-number pair: {:?}", pair),
+        _ => return Err(parse_error("expected a number", pair.as_span())),
     }
     .map_err(|_| {
         parse_error(
@@ -62,10 +62,7 @@ where
         gsd_parser::Rule::dec_number | gsd_parser::Rule::hex_number => {
             vec![parse_number(pair)?]
         }
-        _ => panic!(
-            "Called parse_number_list() on a pair that cannot be a number list: {:?}",
-            pair
-        ),
+        _ => return Err(parse_error("expected a list of numbers", pair.as_span())),
     })
 }
 
@@ -73,8 +70,10 @@ fn parse_bool(pair: pest::iterators::Pair<'_, gsd_parser::Rule>) -> ParseResult<
     Ok(parse_number::<u32>(pair)? != 0)
 }
 
-fn parse_string_literal(pair: pest::iterators::Pair<'_, gsd_parser::Rule>) -> String {
-    assert!(pair.as_rule() == gsd_parser::Rule::string_literal);
+fn parse_string_literal(pair: pest::iterators::Pair<'_, gsd_parser::Rule>) -> ParseResult<String> {
+    if pair.as_rule() != gsd_parser::Rule::string_literal {
+        return Err(parse_error("expected a string literal", pair.as_span()));
+    }
     // drop the quotation marks
     let mut chars = pair.as_str().chars();
     chars.next();
@@ -82,7 +81,7 @@ fn parse_string_literal(pair: pest::iterators::Pair<'_, gsd_parser::Rule>) -> St
     let s = chars.as_str().to_owned();
 
     // remove long-line markers
-    s.replace("\\\r\n", "").replace("\\\n", "")
+    Ok(s.replace("\\\r\n", "").replace("\\\n", ""))
 }
 
 pub fn parse(
@@ -139,7 +138,7 @@ fn parse_inner(
                     assert!(value_pairs.as_rule() == gsd_parser::Rule::prm_text_value);
                     let mut iter = value_pairs.into_inner();
                     let number = parse_signed_number(iter.next().unwrap())?;
-                    let value = parse_string_literal(iter.next().unwrap());
+                    let value = parse_string_literal(iter.next().unwrap())?;
                     assert!(iter.next().is_none());
                     values.insert(value, number);
                 }
@@ -149,7 +148,7 @@ fn parse_inner(
                 let mut content = statement.into_inner();
                 // TODO: actually u32?
                 let id: u32 = parse_number(content.next().unwrap())?;
-                let name = parse_string_literal(content.next().unwrap());
+                let name = parse_string_literal(content.next().unwrap())?;
 
                 let data_type_pair = content.next().unwrap();
                 assert_eq!(
@@ -166,7 +165,12 @@ fn parse_inner(
                             "signed8" => crate::UserPrmDataType::Signed8,
                             "signed16" => crate::UserPrmDataType::Signed16,
                             "signed32" => crate::UserPrmDataType::Signed32,
-                            dt => panic!("unknown data type {dt:?}"),
+                            dt => {
+                                return Err(parse_error(
+                                    format!("unknown data type {dt:?}"),
+                                    data_type_rule.as_span(),
+                                ))
+                            }
                         }
                     }
                     gsd_parser::Rule::bit => {
@@ -251,7 +255,7 @@ fn parse_inner(
                     assert!(value_pairs.as_rule() == gsd_parser::Rule::unit_diag_area_value);
                     let mut iter = value_pairs.into_inner();
                     let number = parse_number(iter.next().unwrap())?;
-                    let value = parse_string_literal(iter.next().unwrap());
+                    let value = parse_string_literal(iter.next().unwrap())?;
                     assert!(iter.next().is_none());
                     values.insert(number, value);
                 }
@@ -263,7 +267,7 @@ fn parse_inner(
             }
             gsd_parser::Rule::module => {
                 let mut content = statement.into_inner();
-                let name = parse_string_literal(content.next().unwrap());
+                let name = parse_string_literal(content.next().unwrap())?;
                 let mut info_text = None;
                 let module_config: Vec<u8> = parse_number_list(content.next().unwrap())?;
                 let mut module_reference = None;
@@ -288,7 +292,12 @@ fn parse_inner(
                                     let data_id = parse_number(pairs.next().unwrap())?;
                                     let data_ref = user_prm_data_definitions
                                         .get(&data_id)
-                                        .expect("TODO")
+                                        .ok_or_else(|| {
+                                            parse_error(
+                                                format!("ExtUserPrmData {} was not found", data_id),
+                                                statement_span,
+                                            )
+                                        })?
                                         .clone();
                                     module_prm_data.data_ref.push((offset, data_ref));
                                 }
@@ -298,7 +307,7 @@ fn parse_inner(
                                     module_prm_data.data_const.push((offset, values));
                                 }
                                 "info_text" => {
-                                    info_text = Some(parse_string_literal(value_pair));
+                                    info_text = Some(parse_string_literal(value_pair)?);
                                 }
                                 _ => (),
                             }
@@ -323,7 +332,7 @@ fn parse_inner(
                         gsd_parser::Rule::slot => {
                             let mut pairs = rule.into_inner();
                             let number = parse_number(pairs.next().unwrap())?;
-                            let name = parse_string_literal(pairs.next().unwrap());
+                            let name = parse_string_literal(pairs.next().unwrap())?;
 
                             let default_pair = pairs.next().unwrap();
                             let default_span = default_pair.as_span();
@@ -410,14 +419,14 @@ fn parse_inner(
                 let value_pair = pairs.next().unwrap();
                 match key.to_lowercase().as_str() {
                     "gsd_revision" => gsd.gsd_revision = parse_number(value_pair)?,
-                    "vendor_name" => gsd.vendor = parse_string_literal(value_pair),
-                    "model_name" => gsd.model = parse_string_literal(value_pair),
-                    "revision" => gsd.revision = parse_string_literal(value_pair),
+                    "vendor_name" => gsd.vendor = parse_string_literal(value_pair)?,
+                    "model_name" => gsd.model = parse_string_literal(value_pair)?,
+                    "revision" => gsd.revision = parse_string_literal(value_pair)?,
                     "revision_number" => gsd.revision_number = parse_number(value_pair)?,
                     "ident_number" => gsd.ident_number = parse_number(value_pair)?,
                     //
-                    "hardware_release" => gsd.hardware_release = parse_string_literal(value_pair),
-                    "software_release" => gsd.software_release = parse_string_literal(value_pair),
+                    "hardware_release" => gsd.hardware_release = parse_string_literal(value_pair)?,
+                    "software_release" => gsd.software_release = parse_string_literal(value_pair)?,
                     //
                     "fail_safe" => gsd.fail_safe = parse_bool(value_pair)?,
                     //
@@ -488,7 +497,7 @@ fn parse_inner(
                     "maxtsdr_6m" => gsd.max_tsdr.b6000000 = parse_number(value_pair)?,
                     "maxtsdr_12m" => gsd.max_tsdr.b12000000 = parse_number(value_pair)?,
                     "implementation_type" => {
-                        gsd.implementation_type = parse_string_literal(value_pair)
+                        gsd.implementation_type = parse_string_literal(value_pair)?
                     }
                     //
                     "modular_station" => {
@@ -512,7 +521,12 @@ fn parse_inner(
                         let data_id = parse_number(pairs.next().unwrap())?;
                         let data_ref = user_prm_data_definitions
                             .get(&data_id)
-                            .expect("TODO")
+                            .ok_or_else(|| {
+                                parse_error(
+                                    format!("ExtUserPrmData {} was not found", data_id),
+                                    statement_span,
+                                )
+                            })?
                             .clone();
                         gsd.user_prm_data.data_ref.push((offset, data_ref));
                         // The presence of this keywords means `User_Prm_Data` and
@@ -583,22 +597,22 @@ fn parse_inner(
                     }
                     "unit_diag_bit" => {
                         let bit = parse_number(value_pair)?;
-                        let text = parse_string_literal(pairs.next().unwrap());
+                        let text = parse_string_literal(pairs.next().unwrap())?;
                         gsd.unit_diag.bits.entry(bit).or_default().text = text;
                     }
                     "unit_diag_bit_help" => {
                         let bit = parse_number(value_pair)?;
-                        let text = parse_string_literal(pairs.next().unwrap());
+                        let text = parse_string_literal(pairs.next().unwrap())?;
                         gsd.unit_diag.bits.entry(bit).or_default().help = Some(text);
                     }
                     "unit_diag_not_bit" => {
                         let bit = parse_number(value_pair)?;
-                        let text = parse_string_literal(pairs.next().unwrap());
+                        let text = parse_string_literal(pairs.next().unwrap())?;
                         gsd.unit_diag.not_bits.entry(bit).or_default().text = text;
                     }
                     "unit_diag_not_bit_help" => {
                         let bit = parse_number(value_pair)?;
-                        let text = parse_string_literal(pairs.next().unwrap());
+                        let text = parse_string_literal(pairs.next().unwrap())?;
                         gsd.unit_diag.not_bits.entry(bit).or_default().help = Some(text);
                     }
                     _ => (),
